@@ -17,7 +17,11 @@
 #endif
 
 typedef eav_result_t *(*email_fn)(const char *, size_t, bool);
+#ifdef HAVE_IDNKIT
+static email_fn EMAIL[4] = { is_822_email, is_5321_email, is_5322_email, NULL };   /* the idnkit build's is_6531_email takes a resolver context: object API only */
+#else
 static email_fn EMAIL[4] = { is_822_email, is_5321_email, is_5322_email, is_6531_email };
+#endif
 static const char *MN[4] = { "822", "5321", "5322", "6531" };
 static const EAV_RFC RFC[4] = { EAV_RFC_822, EAV_RFC_5321, EAV_RFC_5322, EAV_RFC_6531 };
 static int C_ADDR, C_PERPHASE[CP_N];
@@ -116,6 +120,7 @@ static void sink(const unsigned char *s, size_t n, void *arg) {
             /* via 0: the callback's own record; via 1: eav_t.result of a long-lived object after eav_is_email (what a caller of the
              * object API sees - the record must belong to THIS call, whatever was validated before) */
             eav_result_t *r;
+            if (via == 0 && !EMAIL[m]) continue;
             if (via == 0) r = EMAIL[m](buf, n, t);
             else { eav_t *e = &OBJ16[m][t]; int ret = eav_is_email(e, buf, n); r = e->result;
                    if (!r) { viol("object:no-result-record", m, t, s, n, "eav_is_email returned %d and left eav_t.result NULL", ret); continue; }
